@@ -93,6 +93,7 @@ func topAllocSite(f func()) string {
 	snapshot := func() map[string]int64 {
 		runtime.GC()
 		runtime.GC()
+		runtime.GC()
 		var recs []runtime.MemProfileRecord
 		n, ok := runtime.MemProfile(nil, true)
 		for tries := 0; ; tries++ {
@@ -107,7 +108,22 @@ func topAllocSite(f func()) string {
 		m := map[string]int64{}
 		for _, r := range recs[:n] {
 			name := "unknown"
+			// only allocations made under the measured call (all measured calls run inside codec.AllocBytes)
+			measured := false
 			frames := runtime.CallersFrames(r.Stack())
+			for {
+				fr, more := frames.Next()
+				if fr.Function == "verif/rig/codec.AllocBytes" {
+					measured = true
+				}
+				if !more {
+					break
+				}
+			}
+			if !measured {
+				continue
+			}
+			frames = runtime.CallersFrames(r.Stack())
 			for {
 				fr, more := frames.Next()
 				if fr.Function != "" && !strings.HasPrefix(fr.Function, "runtime.") && !strings.HasPrefix(fr.Function, "verif/") && !strings.HasPrefix(fr.Function, "io.") && !strings.HasPrefix(fr.Function, "bytes.") && !strings.HasPrefix(fr.Function, "strings.") && !strings.HasPrefix(fr.Function, "fmt.") {
@@ -620,7 +636,7 @@ func checkMatchers(c *matchCase, in []byte) (res result) {
 				}
 			}
 			if alloc > bound {
-				site := topAllocSite(func() { x.f() })
+				site := topAllocSite(func() { codec.AllocBytes(func() { x.f() }) })
 				res.fail = &failure{"match/" + x.name + "/allocates-beyond-arrived-bytes:" + site, fmt.Sprintf("matcher %s allocated %d bytes for %d bytes of input %s (bound %d), site %s", x.name, alloc, len(in), ev.Short(in), bound, site)}
 				return
 			}
